@@ -125,7 +125,9 @@ func (c11Sys) Letters(s *c11State) []engine.Letter {
 			ls = append(ls, engine.Letter{Name: fmt.Sprintf("Delete(b%d,idx=%d,by=stranger)", b, next-1), Data: c11Delete{b, next - 1, "stranger"}})
 		}
 	}
-	for _, d := range []time.Duration{0, 4 * time.Second, c11Period} {
+	// the long advance is 200 ms short of the period: block times get different sub-second parts (the world
+	// starts at .3 s), so "the second in which the window ends" and "the instant it ends" come apart
+	for _, d := range []time.Duration{0, 4 * time.Second, c11Period - 200*time.Millisecond} {
 		ls = append(ls, engine.Letter{Name: fmt.Sprintf("Advance(%s)", d), Data: c11Advance{d}})
 	}
 	ls = append(ls, engine.Letter{Name: "RestartViaGenesis", Data: c11Restart{}})
@@ -160,7 +162,11 @@ func c11PeriodOf(b uint64) time.Duration {
 	return c11Period
 }
 
-func (m c11Out) final(now time.Time, b uint64) bool { return !now.Before(m.T.Add(c11PeriodOf(b))) }
+// finality is decided in whole seconds (the property says so, C05 decides the boundary itself): an output
+// is final from the second in which its window ends, also when the block's sub-second part is smaller
+func (m c11Out) final(now time.Time, b uint64) bool {
+	return now.Unix() >= m.T.Add(c11PeriodOf(b)).Unix()
+}
 
 func (c11Sys) Step(s *c11State, l engine.Letter) (*c11State, string, *engine.Violation) {
 	ctx, _ := s.ctx.CacheContext()
@@ -380,7 +386,7 @@ func init() {
 				return res
 			}
 			res.Absorb("c11", rep)
-			res.Coverage["alphabet"] = "Propose(b∈{1,2}; idx∈{next-1,next,next+1}; l2∈{last-1,last,last+1,last+3, 2^64-1 and what wraps around after it}; by∈{proposer,stranger}), Delete(b; idx∈0..next; by∈{challenger,stranger}), Advance∈{0,4s,period=10s}"
+			res.Coverage["alphabet"] = "Propose(b∈{1,2}; idx∈{next-1,next,next+1}; l2∈{last-1,last,last+1,last+3, 2^64-1 and what wraps around after it}; by∈{proposer,stranger}), Delete(b; idx∈0..next; by∈{challenger,stranger}), Advance∈{0,4s,9.8s = period-200ms (block times with different sub-second parts)}"
 			res.Coverage["oracle"] = "per-bridge reference log compared with OutputProposals (full, and paged with page size 1 and 2 forward and reverse), OutputProposal and LastFinalizedOutput queries, next index and raw store in every state; acceptance implies the model's guard and exactly one propose_output / delete_output event whose attributes equal the request; rejection implies unchanged digest"
 			res.Assumptions = []string{"one message per transaction with runTx semantics (discarded on error)", "two bridges, period 10s, histories up to the completed depth"}
 			for _, k := range []string{"Propose/accepted", "Propose/rejected", "Delete/accepted-suffix=1", "Delete/accepted-suffix>=2", "Delete/rejected-final"} {
